@@ -1,9 +1,7 @@
-// Command vcheck is the verification engine: see /verif/DESIGN.md.
 package main
 
 import (
 	_ "verif/internal/c01"
-	_ "verif/internal/c12"
 	"verif/internal/fw"
 )
 
